@@ -312,7 +312,14 @@ def units(tier):
         ok = any(o.status == FAILED and "VerifTwinMap" in o.name for o in tw.obligations)
         r.add("vacuity.must_fail_twin", DISCHARGED if ok else UNDECIDED, "twin", 0, "an extra never-cleared map member is reported" if ok else "twin member not reported", kind="vacuity")
         return r
-    return [("C07.reset.Phreeqc_members", m), ("C07.reset.IPhreeqc_UnLoadDatabase", w), ("C07.reset.copier_clear", unit_copier_clear)]
+    def f():
+        from props import c07_fields as CF
+        r = CF.unit_record_fields()
+        if not any(o.status == FAILED for o in r.obligations):
+            U.must_fail_twin(r, "vacuity.must_fail_twin", lambda: CF.unit_record_fields(twin=True))
+        return r
+    return [("C07.reset.Phreeqc_members", m), ("C07.reset.IPhreeqc_UnLoadDatabase", w), ("C07.reset.copier_clear", unit_copier_clear),
+            ("C07.reset.record_members_field_by_field", f)]
 
 
 def run(tier, seed, only, jobs):
